@@ -998,7 +998,8 @@ class PendingFunctionDef(_PendingCompoundStmt[FunctionDef]):
         if len(self.internal_nsp.inner_nonlocal_names):
             nonlocal_dict_keys: list[expr] = []
             nonlocal_dict_values: list[expr] = []
-            for nonlocal_param in self.internal_nsp.nonlocal_parameters:
+            # (a set: sorted, the text must not depend on the hash seed of the process)
+            for nonlocal_param in sorted(self.internal_nsp.nonlocal_parameters):
                 nonlocal_dict_keys.append(Constant(value=nonlocal_param))
                 nonlocal_dict_values.append(Name(id=nonlocal_param, ctx=Load()))
             body.append(
